@@ -50,7 +50,9 @@ def fault_point(name, pos, proc=None):
             (FAULT[1] == pos and FAULT[2] == n) or (FAULT[1] == pos + '+' and n >= FAULT[2])):
         # (every other listener fault is an exception that cannot even be turned into text: reporting it must not become a second fault)
         unprintable = (name.startswith('listener.') or name in ('step', 'callback')) and (n % 2 == 0 or name.endswith(('_finished', '_excepted', '_killed')))
-        exc = (UnprintableError if unprintable else ProgError)('X:%s' % key)
+        # ... and every third of the others is a falsy object (an exception class with __len__, empty): it is an exception all the same
+        falsy = not unprintable and (len(key) + n) % 3 == 0
+        exc = (UnprintableError if unprintable else ProgError)('X:%s%s' % (key, ':falsy' if falsy else ''))
         exc.ctx_hook = next((h for h in reversed(HOOK_STACK) if h in PP_HOOKS), HOOK_STACK[-1] if HOOK_STACK else None)
         exc.proc_terminated = proc.has_terminated() if proc is not None and getattr(proc, '_state', None) is not None else None
         FIRED.append(exc)
